@@ -554,6 +554,17 @@ def shutdown_cycles(pid, tier, seed):
     def collect(tag, futs):
         for i, f in enumerate(futs):
             line, verdict, sample = f.result()
+            # a verdict about elapsed time is an artefact of a loaded machine unless it reproduces: the same cycle is run
+            # again, alone, up to two more times (a stop that really hangs or crawls does so every time); any other
+            # verdict (exit status, panic, lost template, undecoded data) stands as it is
+            if verdict.startswith("fail:latency") or "timeout" in verdict[:40]:
+                fn, args = getattr(f, "rerun", (None, None))
+                for _ in range(2 if fn else 0):
+                    line2, verdict2, sample2 = fn(*args)
+                    if not (verdict2.startswith("fail:latency") or "timeout" in verdict2[:40]):
+                        r.stats["slow-once"] = r.stats.get("slow-once", 0) + 1
+                        line, verdict, sample = line2, verdict2, sample2
+                        break
             r.evaluations += 1
             case = "%s %d seed %d %s" % (tag, i, seed, json.dumps(sample))
             r.stats[line] = r.stats.get(line, 0) + 1
@@ -568,11 +579,24 @@ def shutdown_cycles(pid, tier, seed):
 
     with cf.ThreadPoolExecutor(max_workers=6 if tier == "quick" else 12) as ex:
         forced = ["lull", "burst", "lull", "steady", "idle", "burst"]   # the quick tier covers every pattern
-        collect("shutdown-cycle", [ex.submit(cycle, i, seed, binary, forced[i] if i < len(forced) else None) for i in range(n)])
+        fc = []
+        for i in range(n):
+            args = (i, seed, binary, forced[i] if i < len(forced) else None)
+            f = ex.submit(cycle, *args)
+            f.rerun = (cycle, args)
+            fc.append(f)
+        collect("shutdown-cycle", fc)
     with cf.ThreadPoolExecutor(max_workers=8) as ex:
         witnesses = [dict(w, repeat=None) for w in corpus_stalls(pid) for _ in range(int(w.get("repeat", 1)))]
-        fw = [ex.submit(stall_cycle, 1000 + i, seed, binary, w) for i, w in enumerate(witnesses)]
-        fs = [ex.submit(stall_cycle, i, seed, binary) for i in range(n_stall)]
+        fw, fs = [], []
+        for i, w in enumerate(witnesses):
+            f = ex.submit(stall_cycle, 1000 + i, seed, binary, w)
+            f.rerun = (stall_cycle, (1000 + i, seed, binary, w))
+            fw.append(f)
+        for i in range(n_stall):
+            f = ex.submit(stall_cycle, i, seed, binary)
+            f.rerun = (stall_cycle, (i, seed, binary))
+            fs.append(f)
         collect("stalled-stop-witness", fw)
         collect("stalled-stop", fs)
     r.summary = {"cycles": n, "stalled_stops": n_stall + len(witnesses), "ok": r.oracle_ok, "failed": len(r.oracle_fail),
@@ -795,6 +819,40 @@ def redefinition_cycles(pid, tier, seed):
                 r.samples.append({"case": case, "impl": line})
     r.summary = {"cycles": len(jobs), "ok": r.oracle_ok, "failed": len(r.oracle_fail), "distribution": r.stats}
     return r
+
+
+def replay(d):
+    """re-run the cycle a replay file describes (kinds e2e-*): same cycle number, seed and parameters"""
+    import re
+    line = d["session"][-1]
+    m = re.match(r"(\S+) (\d+) seed (\d+) (\{.*\})$", line)
+    if not m:
+        print("cannot parse", line)
+        return 2
+    tag, n, seed, sample = m.group(1), int(m.group(2)), int(m.group(3)), json.loads(m.group(4))
+    race = tag == "startup-cycle"
+    ok, binary, err = build_binary(race=race)
+    if not ok:
+        print("build failed:", err[-300:])
+        return 2
+    if tag == "shutdown-cycle":
+        res = cycle(n, seed, binary, sample.get("pattern"))
+    elif tag == "stalled-stop":
+        res = stall_cycle(n, seed, binary)
+    elif tag == "stalled-stop-witness":
+        ws = [dict(w, repeat=None) for w in corpus_stalls(d.get("property", "C15")) for _ in range(int(w.get("repeat", 1)))]
+        res = stall_cycle(1000 + n, seed, binary, ws[n] if n < len(ws) else None)
+    elif tag == "startup-cycle":
+        res = startup_cycle(n, seed, binary)
+    elif tag == "redefinition-cycle":
+        res = redefinition_cycle(n, seed, binary, int(sample.get("workers", 4)))
+    else:
+        print("unknown e2e cycle", tag)
+        return 2
+    print("cycle  :", line[:300])
+    print(" result:", res[0], "|", res[1][:600])
+    print(" sample:", json.dumps(res[2]))
+    return 1 if res[1].startswith("fail") else 0
 
 
 if __name__ == "__main__":
